@@ -1,6 +1,7 @@
 package main
 
 import (
+	"sync"
 	"crypto/sha256"
 	"encoding/hex"
 	"fmt"
@@ -99,10 +100,14 @@ func digest(b []byte) string {
 	return hex.EncodeToString(h[:8])
 }
 
-// trace state (single-threaded worker)
+// trace state. The worker is single-threaded, but the library is free to call the hook from goroutines of its own
+// (an implementation that marshals resources in parallel is not wrong for that), so the monitor locks.
 var c11trace map[string][]string
+var c11traceMu sync.Mutex
 
 func c11hook(site, key string) {
+	c11traceMu.Lock()
+	defer c11traceMu.Unlock()
 	if c11trace != nil {
 		c11trace[site] = append(c11trace[site], key)
 	}
@@ -231,18 +236,23 @@ func (a c11snap) diff(b c11snap) string {
 func (m c11) marshalOnce(c *Ctx, b *docBuilt) ([]byte, bool) {
 	var out []byte
 	var err error
+	c11traceMu.Lock()
 	c11trace = map[string][]string{}
+	c11traceMu.Unlock()
 	jsonapi.VerifTrace = c11hook
 	pi := Guard(func() { out, err = jsonapi.MarshalDocument(b.Doc, b.URL) })
 	jsonapi.VerifTrace = nil
-	for site, keys := range c11trace {
+	c11traceMu.Lock()
+	taken := c11trace
+	c11trace = nil
+	c11traceMu.Unlock()
+	for site, keys := range taken {
 		// one document marshals several resources: split per call is not needed, the whole
 		// sequence identifies the walk; cap the text
 		if len(keys) >= 2 {
 			c.SetAdd("order/"+site, clip(strings.Join(keys, ","), 300))
 		}
 	}
-	c11trace = nil
 	c.Count("marshals")
 	c.Count("evaluations")
 	if pi != nil {
@@ -251,6 +261,9 @@ func (m c11) marshalOnce(c *Ctx, b *docBuilt) ([]byte, bool) {
 	}
 	if err != nil {
 		c.Violate("marshal-error", "MarshalDocument: %v", err)
+		return nil, false
+	}
+	if !keptPayloadCheck(c, "MarshalDocument", out) {
 		return nil, false
 	}
 	return out, true
@@ -369,15 +382,20 @@ func (m c11) check(c *Ctx, d *DocSpec, r *RNG, reps, perms int) (string, bool) {
 					res = buildResource(t, &perm)
 				}
 				jsonapi.VerifTrace = c11hook
-				c11trace = map[string][]string{}
+				c11traceMu.Lock()
+	c11trace = map[string][]string{}
+	c11traceMu.Unlock()
 				out = jsonapi.MarshalResource(res, d.Prefix, shuffleStrings(r, t.FieldNames()), map[string][]string{t.Name: shuffleStrings(r, t.RelNames())})
 				jsonapi.VerifTrace = nil
-				for site, keys := range c11trace {
+				c11traceMu.Lock()
+				taken := c11trace
+				c11trace = nil
+				c11traceMu.Unlock()
+				for site, keys := range taken {
 					if len(keys) >= 2 {
 						c.SetAdd("order/"+site, clip(strings.Join(keys, ","), 300))
 					}
 				}
-				c11trace = nil
 			}); pi != nil {
 				jsonapi.VerifTrace = nil
 				c.Violate("panic@"+pi.Frame+"/MarshalResource", "%s", pi)
